@@ -56,6 +56,10 @@ MANDATORY = [
     "plookup_tables|ts[*]:point|random",
     "plookup_tables|permutationProof:struct|other",
     "false_stmt:rejected",
+    "forgery:degenerate_generator",
+    "forgery:degenerate_generator(plookup)",
+    "false_stmt|zero_accumulator_consistent_openings",
+    "false_stmt|lookup_proof_in_unrelated_table",
     "positions_model_ok",
     "refprover_accepted",
 ]
